@@ -27,12 +27,12 @@ SaveClauses(r) ==
   IF r.exc # "" THEN << <<"NoException", FALSE>> >>
   ELSE <<
     <<"PathRule", r.nfiles = 1 /\ r.created = FinalPath(r.path)>>,
-    (* the header is the text built from the semantics; where a semantics string contains line  *)
-    (* breaks they may only have become blanks (the characters other than blanks and breaks are  *)
-    (* the same, in order)                                                                      *)
+    (* the header is the text built from the semantics, character for character (blanks and tabs   *)
+    (* included); the property leaves open only what a line break inside a string turns into:      *)
+    (* one blank or nothing                                                                        *)
     <<"HeaderLine", Len(r.lines) >= 1 /\
          LET h == Header(NamesOf(r), UnitsOf(r)) IN
-           IF HasBreak(h) THEN Solid(r.lines[1]) = Solid(h) ELSE r.lines[1] = h>>,
+           IF HasBreak(h) THEN BreaksFlattened(r.lines[1], h) ELSE r.lines[1] = h>>,
     (* lines = the file split at LF, CR LF and CR: one header line + one line per point *)
     <<"OneHeaderLine", Len(r.lines) = 1 + Len(r.coords) /\ ~HasBreak(r.lines[1])>>,
     <<"RowCount", Len(r.lines) = 1 + Len(r.coords) /\ r.endsnl>>,
